@@ -63,11 +63,11 @@ func genC14Peer(t *simrt.Tape, id int, n int) []rawCmd {
 		case 11:
 			add([]string{`LIST "" "*"`, `LIST "" "%" RETURN (STATUS (MESSAGES UNSEEN))`, `LSUB "" "*"`, `LIST "" ""`, `LIST "" "Bra%"`, `LSUB "" ""`}[t.Choose(6)])
 		case 12:
-			add("STATUS " + box + " (MESSAGES UIDNEXT UNSEEN)")
+			add("STATUS " + []string{"INBOX", "Bravo", "Charlie", "Delta", "Echo", "Charlie"}[t.Choose(6)] + " (MESSAGES UIDNEXT UNSEEN)")
 		case 13:
 			add([]string{"SEARCH ALL", "UID SEARCH UNSEEN", `SEARCH BODY "part"`, "SEARCH DELETED"}[t.Choose(4)])
 		case 14:
-			add([]string{"CREATE Delta", "DELETE Delta", "RENAME Delta Echo", "RENAME Echo Delta", "DELETE Charlie", "CREATE Charlie", "RENAME Charlie Delta", "SUBSCRIBE Bravo"}[t.Choose(8)])
+			add([]string{"CREATE Delta", "DELETE Delta", "RENAME Delta Echo", "RENAME Echo Delta", "DELETE Charlie", "CREATE Charlie", "RENAME Charlie Delta", "SUBSCRIBE Bravo", "RENAME Delta Charlie", "RENAME Charlie Echo", "RENAME Echo Charlie"}[t.Choose(11)])
 		case 15, 16:
 			c := add("IDLE")
 			c.Cont = []string{"DONE"}
